@@ -99,6 +99,7 @@ fn main() {
                     (args[4].parse().expect("seed"), args[5].parse().expect("runs"), args[6].parse().expect("n"));
                 trace::noise(&args[3], seed, runs, n, &mut w);
                 trace::typist(&args[3], seed, runs, n, &mut w);
+                trace::pipeline(&args[3], seed, runs, n, &mut w);
                 w.flush().unwrap();
             } else if args.len() >= 6 && args[2] == "script" {
                 let txt = std::fs::read_to_string(&args[4]).expect("read scenarios");
